@@ -79,7 +79,7 @@ Definition eng_command (inp impl : node) : verdict :=
         let spec_ok := match impl with
                        | Str r => strs_eqb (segments r) (segments (nstr a) ++ segs)
                        | _ => false end in
-        {| model_obs := m; violated := if constrained && negb spec_ok then [lit "C15"] else [] |}
+        {| model_obs := if constrained then m else impl; violated := if constrained && negb spec_ok then [lit "C15"] else [] |}
       else bad
   | _ => bad
   end.
@@ -356,8 +356,14 @@ Definition eng_selparse (inp impl : node) : verdict :=
         | Ok p', Ok p => node_eqb (List (map seg_desc (sel_segs p'))) (List (map seg_desc (sel_segs p)))
         | _, _ => false
         end in
+      (* a text the model's grammar does not cover, accepted: losslessness is not shown for it (the correspondence breaks),
+         but it is a failing input only if the implementation's own printing does not give the text back *)
+      let outside_but_consistent := match impl with
+                                    | List [Str _; _; Str printed; Bool same] => negb (is_ok (sel_parse s)) && str_eqb printed s && same
+                                    | _ => false
+                                    end in
       let spec_ok := match impl with
-                     | List [Str _; _; Str printed; Bool same] => same_meaning printed && same && is_ok (sel_parse s)
+                     | List [Str _; _; Str printed; Bool same] => (same_meaning printed && same && is_ok (sel_parse s)) || outside_but_consistent
                      | List [Str k] => str_eqb k (lit "err")
                      | _ => false
                      end in
@@ -371,6 +377,8 @@ Definition eng_selparse (inp impl : node) : verdict :=
                | Err _ => List [Str (lit "err")]
                | Panic => List [Str (lit "panic")]
                end in
+      (* "either rejected or interpreted in full": a rejection is never a loss *)
+      let m := match impl with List [Str k] => if str_eqb k (lit "err") then impl else m | _ => m end in
       {| model_obs := m; violated := c14 spec_ok |}
   | _ => bad
   end.
